@@ -56,7 +56,7 @@ def search(ctx):
                 if got["rules"]:
                     stats["distinct"] += 1
                 if got != want:
-                    vios.append({"input": {"dippy_kinds_root_to_leaf": lay.kinds, "cwd_level": lay.cwd_index, "cwd_is_symlink": os.path.islink(lay.cwd), "user_text": lay.user_text, "project_texts": {os.path.relpath(k, lay.root): v for k, v in lay.texts.items()}, "env_value": lay.env_value and os.path.relpath(lay.env_value, lay.root) if lay.env_value and lay.env_value.startswith(lay.root) else lay.env_value, "env_text": lay.env_text}, "observed": {"loaded": got}, "required": {"like_one_file": lay.concatenated(), "parsed": want}, "oracle": "layers-concat"})
+                    vios.append({"input": {"dippy_kinds_root_to_leaf": lay.kinds, "cwd_level": lay.cwd_index, "cwd_is_symlink": os.path.islink(lay.cwd), "user_text": lay.user_text, "project_texts": {os.path.relpath(k, lay.root): v for k, v in lay.texts.items()}, "env_value": lay.env_value and os.path.relpath(lay.env_value, lay.root) if lay.env_value and lay.env_value.startswith(lay.root) else lay.env_value, "env_text": lay.env_text, "file_modes": lay.modes}, "observed": {"loaded": got}, "required": {"like_one_file": lay.concatenated(), "parsed": want}, "oracle": "layers-concat"})
                 elif len(samples) < 3:
                     samples.append({"dippy_kinds_root_to_leaf": lay.kinds, "cwd_level": lay.cwd_index, "layers": nl, "rules": [x["pattern"] for x in got["rules"]][:6]})
         finally:
